@@ -5,15 +5,15 @@
   Proved here (all inputs): the text/position builder, the scanner, the error mark,
   blank-line removal, the multi-language splitter and phrase replacement each
   keep lengths equal and positions inside `[0, n)` (the `+1` of tex2txt.py gives
-  `1 ≤ p ≤ n`).  The invariant "every token the expander emits is `TokInRange n`"
-  (DESIGN, Appendix A) is the part still established by the correspondence check
-  on the implementation's final token list, not by a theorem: see
-  `C01_pipeline_partial`.
+  `1 ≤ p ≤ n`), and — `C01_tex2txt` — so does the whole filter model including the
+  macro expander (induction on fuel over the mutual block, Proofs/Inv/*).
 -/
 import YalafiVerif.Proofs.Scanner
 import YalafiVerif.Proofs.Utils
 import YalafiVerif.Proofs.Lines
 import YalafiVerif.Proofs.Replace
+import YalafiVerif.Proofs.Inv.Tex2txt
+import YalafiVerif.Generated.WF
 namespace Yalafi
 
 theorem C01_getTxtPos_length (ts : List Tok) : (getTxtPos ts).1.length = (getTxtPos ts).2.length :=
@@ -65,6 +65,40 @@ theorem C01_pipeline_partial (T : Tables) (n : Nat) (toks : List Tok) (lines : L
   have hl := getTxtPos_length toks
   have h1 := replacePhrases_ok T _ _ lines hl
   exact ⟨h1.1, fun p hp => getTxtPos_range n toks h p (h1.2 p hp)⟩
+
+/-- **C01 for the whole filter model** (scanner, macro expander with all handlers and
+    bundled packages, maths parser, blank-line removal, detached flows, phrase replacement,
+    multi-language splitter): for every source text, option record, file system and fuel,
+    whenever `tex2txt` returns, text and position list have equal length and — unless `--unkn`
+    replaced the map — every position lies in `1 … len(source)`, for the single text and for
+    every language part.  Hypotheses: the decidable table facts `T.WFInv`, and the ghost flag
+    `foreign` of the run is false (a text flow extracted while a package's own LaTeX
+    definitions were parsed in the middle of the document; impossible with the bundled
+    modules, reported per run by the harness). -/
+theorem C01_tex2txt (T : PTables) (hw : T.WFInv) (fuel : Nat) (latex : Str) (o : Options) (multi : Bool)
+    (thresh : Nat) (fs : FS) :
+    match tex2txt T fuel latex o multi thresh fs with
+    | .ok r =>
+      r.txt.length = r.pos.length ∧
+      (r.foreign = false → o.unkn = false → PartOk latex.length (r.txt, r.pos)) ∧
+      (r.foreign = false → ∀ tp ∈ allParts r.parts, PartOk latex.length tp)
+    | _ => True :=
+  tex2txt_inRange T hw fuel latex o multi thresh fs
+
+/-- the same for the tables translated from /repo on this run (`Generated/WF.lean` decides
+    `WFInv` with the kernel) -/
+theorem C01_tex2txt_current (fuel : Nat) (latex : Str) (o : Options) (multi : Bool) (thresh : Nat) (fs : FS) :
+    match tex2txt Generated.theTables fuel latex o multi thresh fs with
+    | .ok r =>
+      r.txt.length = r.pos.length ∧
+      (r.foreign = false → o.unkn = false → PartOk latex.length (r.txt, r.pos)) ∧
+      (r.foreign = false → ∀ tp ∈ allParts r.parts, PartOk latex.length tp)
+    | _ => True :=
+  C01_tex2txt Generated.theTables Generated.wfInv fuel latex o multi thresh fs
+
+/- non-vacuity of `C01_tex2txt_current`: the compiled model is run on thousands of documents
+   by the correspondence check of every run; the evidence file reports how many returned `ok`
+   with `foreign = false` (all of them, so far). -/
 
 /-- non-vacuity: a scanned document satisfies the hypothesis -/
 example : TokInRange 3 { kind := .text, pos := 2, txt := ['a'] } := by
